@@ -99,7 +99,7 @@ CHECKS = {
     ),
     "C16": (
         "emitted-text monitor of ABI strings (syn) over generated programs + exhaustive convention x receiver x depth product + i686-pc-windows-msvc acceptance by nightly rustc",
-        "Reads the ABI string of every emitted vftable slot type and address-bound wrapper fn-pointer for generated accepted programs and for the complete product of conventions, receivers, chain depths and widths, and compares with the declared or default convention; misspelt names must be rejected; so must names written in a malformed attribute (identifier, number, two arguments, none, `= "..."`), alone or next to a valid one, on any function of the program; a calling_convention attribute on an impl BLOCK changes nothing; the un-normalised struct definitions are compiled by nightly rustc for i686-pc-windows-msvc where all seven conventions are real. Exhaustive for the product, sampled beyond.",
+        "Reads the ABI string of every emitted vftable slot type and address-bound wrapper fn-pointer for generated accepted programs and for the complete product of conventions, receivers, chain depths and widths, and compares with the declared or default convention; misspelt names must be rejected; so must names written in a malformed attribute (identifier, number, two arguments, none, an assignment), alone or next to a valid one, on any function of the program; a calling_convention attribute on an impl BLOCK changes nothing; the un-normalised struct definitions are compiled by nightly rustc for i686-pc-windows-msvc where all seven conventions are real. Exhaustive for the product, sampled beyond.",
         "Trusted: syn; reference default rule (thiscall with receiver, system without, placeholders thiscall); nightly rustc's ABI validation.",
         "DESIGN.md §6 C16",
     ),
